@@ -45,6 +45,8 @@ mod biarc {
         /// Try to create a second handle, if it doesn't already exist.
         pub fn try_clone(&self) -> Option<Self> {
             // Try to transition to SHARED.
+            #[cfg(aranya_verif)]
+            crate::verif::point(crate::verif::site::BIARC_CLONE_SWAP, self.0.as_ptr() as usize, 0);
             match self.inner().state.swap(STATE_SHARED, Ordering::AcqRel) {
                 // We were not already shared so we can create another handle.
                 STATE_UNSHARED => Some(Self(self.0)),
@@ -60,6 +62,8 @@ mod biarc {
 
         /// Get the inner data only if there is currently a second handle.
         pub fn get_if_shared(&self) -> Option<&T> {
+            #[cfg(aranya_verif)]
+            crate::verif::point(crate::verif::site::BIARC_LOAD, self.0.as_ptr() as usize, 0);
             match self.inner().state.load(Ordering::Acquire) {
                 STATE_UNSHARED => None,
                 STATE_SHARED => Some(&self.inner().value),
@@ -71,7 +75,11 @@ mod biarc {
         fn drop(&mut self) {
             // We transition to UNSHARED since there will no longer be multiple BiArcs active.
             // If we were already UNSHARED then we are the sole holder of the data.
+            #[cfg(aranya_verif)]
+            crate::verif::point(crate::verif::site::BIARC_DROP_SWAP, self.0.as_ptr() as usize, 0);
             if self.inner().state.swap(STATE_UNSHARED, Ordering::AcqRel) == STATE_UNSHARED {
+                #[cfg(aranya_verif)]
+                crate::verif::point(crate::verif::site::BIARC_FREE, self.0.as_ptr() as usize, 0);
                 // SAFETY: The data is not shared, so we can immediately drop it.
                 unsafe {
                     drop(Box::from_raw(self.0.as_ptr()));
